@@ -24,7 +24,7 @@ import (
 )
 
 const c07xRule = "TestC07Faults: directory store; a subject (present or not) with 1-4 artifacts pushed without fault; then 1-3 requests from {push another artifact, push one of them again, delete one by digest}, " +
-	"each with its k-th reading file-system call failing with EIO (k uniform over the reads the same request makes without fault on a copy of the directory); oracle after each request: every artifact that was acknowledged and not " +
+	"each with its k-th reading or (one in three) mutating file-system call failing with EIO, a failing write optionally short (k uniform over the calls the same request makes without fault on a copy of the directory), a request answered 5xx optionally repeated by the client; oracle after each request: every artifact that was acknowledged and not " +
 	"addressed by a delete is listed exactly once with its descriptor; an artifact whose delete answered 202 is not listed; the artifact of a refused push is not asserted (two index saves: listed finding C09/C11); nothing else is listed; " +
 	"the same after Close + New; non-trivial = the failed read was the open of the stored listing; distinct = (content, requests, k)"
 
@@ -108,23 +108,32 @@ func c07xProperty(t *rapid.T, st *Stats) {
 			_, d = art(rapid.IntRange(0, nextArt-1).Draw(t, "which"))
 			method, u = "DELETE", "/v2/"+rn+"/manifests/"+d
 		}
-		// how many reads does this request make? (same request on a copy of the directory)
+		// how many reading and mutating calls does this request make? (same request on a copy of the directory)
 		cp := fmt.Sprintf("%s/copy%d", tmp, i)
 		_ = srv.Close()
 		copyTree(root, cp)
 		vfs.Reset(cp, false)
 		c := olareg.New(conf(cp))
 		_ = doReq(c, method, u, body, hdr("Content-Type", mtImage))
-		nReads := vfs.ReadCount()
+		nReads, nMuts := vfs.ReadCount(), vfs.MutCount()
 		_ = c.Close()
 		_ = os.RemoveAll(cp)
 		srv = olareg.New(conf(root))
 		if nReads == 0 {
 			continue
 		}
-		k := rapid.IntRange(1, nReads).Draw(t, "failedRead")
+		writeFault := nMuts > 0 && rapid.IntRange(0, 2).Draw(t, "writeFault") == 0
+		k := 0
 		vfs.Reset(root, true)
-		vfs.FailReadAt(k)
+		if writeFault {
+			k = rapid.IntRange(1, nMuts).Draw(t, "failedWrite")
+			vfs.FailAt(k)
+			vfs.FailShort(rapid.Bool().Draw(t, "shortWrite"))
+			nReads = nMuts
+		} else {
+			k = rapid.IntRange(1, nReads).Draw(t, "failedRead")
+			vfs.FailReadAt(k)
+		}
 		r := doReq(srv, method, u, body, hdr("Content-Type", mtImage))
 		failed := ""
 		for _, op := range vfs.Log() {
@@ -133,7 +142,12 @@ func c07xProperty(t *rapid.T, st *Stats) {
 			}
 		}
 		vfs.Reset(root, false)
-		trace = append(trace, fmt.Sprintf("%s %s with read %d of %d failing: %s -> %d", kind, short(d), k, nReads, failed, r.code))
+		trace = append(trace, fmt.Sprintf("%s %s with call %d of %d failing: %s -> %d", kind, short(d), k, nReads, failed, r.code))
+		if r.code >= 500 && rapid.Bool().Draw(t, "clientRepeats") {
+			// the client repeats a request that was answered 5xx (the fault is gone)
+			r = doReq(srv, method, u, body, hdr("Content-Type", mtImage))
+			trace = append(trace, fmt.Sprintf("  repeated -> %d", r.code))
+		}
 		if strings.HasPrefix(failed, "open") && strings.Contains(failed, "/blobs/") {
 			listingRead = true
 		}
